@@ -42,7 +42,11 @@ for p in ps:
         viol.append(p["violation"])
 for b in builds:
     builds[b]["distinct_arrival_orders"] = len(orders[b])
-distinct = sum(len(v) for v in orders.values()) if prop == "C15" else sum(p["c09_interleavings"] for p in ps)
+cases = set()
+for p in ps:
+    b = "T%d/M%d" % (p["threads"], p["max_hash_optimizations"])
+    cases.update(b + "|" + c for c in p.get("cases", []))
+distinct = len(cases) if prop == "C15" else sum(p["c09_interleavings"] for p in ps)
 by_hash = {}
 by_w = {}
 for p in ps:
@@ -74,7 +78,7 @@ wall = time.time() - t0
 if prop == "C15":
     rule = ("one shuttle iteration = one seeded schedule (random and PCT depth 3) + one scheduler-owned random stream = one sign_mut call on a 1- or 2-level "
             "key of height 2 with hash, w, counter, message length and callback verdict drawn from shuttle's RNG, or one refusal case (too short / non-zero trailer); "
-            "one binary per (THREADS, MAX_HASH_OPTIMIZATIONS); non-trivial and distinct = distinct orders in which the worker threads delivered their results, per build")
+            "one binary per (THREADS, MAX_HASH_OPTIMIZATIONS); distinct = distinct (build, hash, w, levels, case kind {signed, callback-reject, too-short, non-zero trailer}, order in which the worker threads delivered their results) tuples; every one of them is non-trivial in that a full sign_mut or refusal ran under a scheduler-chosen interleaving")
 else:
     rule = ("K = 2..4 caller tasks each generating a key and signing three times, scheduling points between API calls, under seeded random and PCT schedules; results compared "
             "with a solo run; distinct = distinct completion orders of the API calls across tasks")
@@ -82,7 +86,7 @@ ev = {
     "property_id": prop, "tier": tier, "seed": seed, "level": "exploration",
     "coverage": {
         "evaluations": iters, "distinct_nontrivial": distinct, "rule": rule, "samples": samples,
-        "builds": builds, "by_hash": by_hash, "by_w": by_w, "processes": len(ps),
+        "builds": builds, "distinct_arrival_orders_total": sum(len(v) for v in orders.values()), "by_hash": by_hash, "by_w": by_w, "processes": len(ps),
         "schedulers": ["RandomScheduler", "PctScheduler(depth 3)"],
         "runs_per_hour": int(iters / wall * 3600) if wall > 0 else 0,
         "components": {"real": ["all of /repo/src incl. optimize_message_hash / thread_optimize_message_hash", "sha2/sha3"],
